@@ -115,26 +115,26 @@ PROPS['C01'] = dict(
 PROPS['C02'] = dict(
     title='Solver reports Optimal exactly when a feasible matching exists; never errors',
     functions=[LP + 'run', LP + 'run_optimisations', MOD + 'pulp_setup', 'solver:Solver.solve', LP + 'upper_lower_constraints', LP + 'stability_constraints'] + CRIT_FUNCS,
-    lemmas=['SUM/ext', 'SUM/le', 'SUM/const', 'C02/size-bound'], level='other',
-    level_text=EXACT + 'run: never raises, solves at least once, returns the status of the last solve, only the last solve may have failed; every criterion creates a variable with a fresh literal name (duplicate names raise in PuLP); Solver.solve never raises in either mode and hands LP_Solver.run a fresh problem with all variables the requested options need (Model.pulp_setup).  NOT proved deductively (bounded stand-in): that the upper bound given to each objective variable admits the witness value of every feasible matching (witness-in-bounds), i.e. that criteria never turn a feasible instance infeasible',
+    lemmas=['SUM/ext', 'SUM/le', 'SUM/const', 'SUM/nonneg', 'C02/size-bound', 'C03/freeze-opt'], level='other',
+    level_text=EXACT + 'run: never raises, solves at least once, returns the status of the last solve, only the last solve may have failed; every criterion creates a variable with a fresh literal name (duplicate names raise in PuLP); Solver.solve never raises in either mode and hands LP_Solver.run a fresh problem with all variables the requested options need (Model.pulp_setup).  Witness-in-bounds (the bounds of an objective variable admit the measure of EVERY matching feasible before the criterion, so that linking the variable excludes none - the completeness half of "criteria never turn a feasible instance infeasible") is proved for maxsize and minsize: Solver.solve hands run a program whose solutions are 0/1 on the pair variables, add_constraints makes every row a partial assignment (row sums in [0,1], non-negativity by lemma SUM/nonneg for every row), run_optimisations keeps that as an invariant, and C02/size-bound gives 0 <= size <= number of students.  NOT proved deductively (bounded stand-in): witness-in-bounds for the other seven criteria (rank counts, weighted costs with symbolic multipliers, deviation sums)',
     harness=True, bound='<= 5 students x <= 3 projects x <= 3 lecturers incl. objective-bound stress instances, 0-3 random criteria, real CBC',
     budget={'quick': 30, 'thorough': 400}, trusted=T_LP,
-    assumptions=['witness-in-bounds of the objective variables: bounded stand-in only', 'FLAT/sum assumed (T11)'])
+    assumptions=['witness-in-bounds of the objective variables of generous / greedy / mincost / minsqcost / lmb / lsb / mincostlsb: bounded stand-in only', 'FLAT/sum assumed (T11)'])
 PROPS['C03'] = dict(
     title='Each optimisation criterion optimises the quantity it is documented to optimise',
-    functions=CRIT_FUNCS + [LP + 'run', LP + 'run_optimisations'], lemmas=['SUM/ext'], level='other',
-    level_text=EXACT + 'per criterion: LINK (objective variable == the documented measure written as sums over the code\'s own lists, with the documented defaults for cut-off and multipliers), FRESH name, FREEZE (perform_optimisation: objective = +-variable, one solve, then variable >= / <= the achieved value), generous / greedy visit exactly ranks R..cut / 1..min(cut,R); LP_Solver.run adds the load-balancing constraints (deviation variable >= |load - target|) whenever one of lmb / lsb / mincostlsb is requested and dispatches every requested criterion to its function.  The step from LINK+FREEZE to "the reported matching attains the optimum" uses T3 (CBC returns an optimum) and the set-level meta-lemma freeze_opt, which is argued in DESIGN.md section 6 but not machine-checked here',
+    functions=CRIT_FUNCS + [LP + 'run', LP + 'run_optimisations'], lemmas=['SUM/ext', 'C03/freeze-opt'], level='other',
+    level_text=EXACT + 'per criterion: LINK (objective variable == the documented measure written as sums over the code\'s own lists, with the documented defaults for cut-off and multipliers), FRESH name, FREEZE (perform_optimisation: objective = +-variable, one solve, then variable >= / <= the achieved value), generous / greedy visit exactly ranks R..cut / 1..min(cut,R); LP_Solver.run adds the load-balancing constraints (deviation variable >= |load - target|) whenever one of lmb / lsb / mincostlsb is requested and dispatches every requested criterion to its function.  The set-level step is machine-checked over an uninterpreted sort of valuations (lemma C03/freeze-opt): from LINK, T3 (the solver reports an optimum of the linked program) and FREEZE, the program after the criterion has exactly the optimal part of the linked program as solutions, non-empty; and, GIVEN witness-in-bounds (every feasible valuation has its measure within the declared bounds of the objective variable - C02\'s open obligation), exactly the feasible valuations optimal for the documented measure.  Reading the function postconditions as instances of the lemma\'s hypotheses (F := feas() before the criterion, as a set of valuations) is by inspection',
     harness=True, bound='<= 4 students x <= 3 projects x <= 3 lecturers, one random criterion with random extras, real CBC',
     budget={'quick': 25, 'thorough': 300}, trusted=T_LP,
-    assumptions=['freeze_opt meta-lemma (set-level) not machine-checked', 'FLAT/sum assumed (T11)', 'measures are stated over project_lists / lecturer_lists / rank_lists (ModelWF agreement: bounded)'])
+    assumptions=['witness-in-bounds (hypothesis of C03/freeze-opt) is established by the bounded stand-in only', 'FLAT/sum assumed (T11)', 'measures are stated over project_lists / lecturer_lists / rank_lists (ModelWF agreement: bounded)'])
 PROPS['C04'] = dict(
     title='Several criteria compose lexicographically in the user-given order',
     functions=[LP + 'run', LP + 'run_optimisations', LP + 'perform_optimisation', LP + 'loadbalancing_constraints', (OPP + 'parse', {'argparse_py': True}), OPP + '_get_ordered_optimisations'],
-    lemmas=['C16/occupy-step', 'C16/chain', 'C16/all-first', 'C16/pigeonhole'], level='other',
-    level_text='run_optimisations dispatches the criteria in list order (loop invariant over the symbolic list), each by its contract, stops after the first solve that is not Optimal, and never removes a constraint; perform_optimisation freezes each achieved value; Options_parser.parse puts every requested criterion at index = number of requested criteria with a smaller position (C16).  The lexicographic-optimum conclusion (lex_chain) is a set-level argument over these contracts, not machine-checked',
+    lemmas=['C16/occupy-step', 'C16/chain', 'C16/all-first', 'C16/pigeonhole', 'C03/freeze-opt', 'C04/lex-chain'], level='other',
+    level_text='run_optimisations dispatches the criteria in list order (loop invariant over the symbolic list), each by its contract, stops after the first solve that is not Optimal, and never removes a constraint; perform_optimisation freezes each achieved value; Options_parser.parse puts every requested criterion at index = number of requested criteria with a smaller position (C16).  The set-level conclusion is machine-checked (lemma C04/lex-chain over an uninterpreted sort of valuations): optimising m2 over the optimal part for m1 gives the lexicographic optimum of (m1, m2), and no later criterion worsens an earlier value; its hypotheses are instances of C03/freeze-opt\'s conclusion, read off the contracts by inspection',
     harness=True, bound='<= 4 students x <= 3 projects x <= 3 lecturers, 2-3 random criteria, real CBC',
     budget={'quick': 25, 'thorough': 300}, trusted=T_LP + ['T9 argparse'],
-    assumptions=['lex_chain meta-lemma not machine-checked'])
+    assumptions=['witness-in-bounds per criterion (C02) is covered by the bounded stand-in only; the instantiation of the set-level lemmas by the contracts is by inspection'])
 PROPS['C05'] = dict(
     title='With stability requested the solver searches exactly the stable matchings',
     functions=[LP + 'stability_constraints'], lemmas=['C05/prefix-filter', 'SUM/le', 'SUM/squeeze', 'SUM/ext', 'C05/no-blocking-iff', 'C05/alpha-beta-gamma'], level='other',
